@@ -271,7 +271,7 @@ func runBitHistory(c *Call, slot *CallResult) {
 				v, ok := rt.Recv2(chans[j], 0)
 				if !ok {
 					closed[j] = true
-					return true
+					continue
 				}
 				gots[j] = append(gots[j], v)
 				if len(gots[j]) > len(model)/8+16 {
